@@ -1451,7 +1451,11 @@ pub fn exchange(rep: &mut Report, which: Which, ops_per_thread: u64) {
                                 }
                                 Some(id) => {
                                     if role == 2 {
-                                        COp::Cancel(id)
+                                        if rng.chance(1, 6) {
+                                            COp::Move(id, 1 + rng.below(3) as u8)
+                                        } else {
+                                            COp::Cancel(id)
+                                        }
                                     } else {
                                         COp::Amend {
                                             id,
